@@ -25,6 +25,10 @@ def run_one(prop, m, keep_output=False):
         if cnt == 0:
             return dict(name=m['name'], ok=False, why='pattern not found (mutant out of date)', rc=None)
         s = s.replace(m['old'], m['new'], m.get('count', 1))
+        for extra in m.get('also', ()):           # further edits of the same file that belong to the same change
+            if extra['old'] not in s:
+                return dict(name=m['name'], ok=False, why='pattern of an `also` edit not found (mutant out of date)', rc=None)
+            s = s.replace(extra['old'], extra['new'], 1)
         open(p, 'w').write(s)
         try:
             compile(s, p, 'exec')
